@@ -30,6 +30,7 @@ let dec_of_z (x : z) : string =
 let hex (l : z list) = "x" ^ hexbytes_of_zlist l
 let b2s b = if b then "true" else "false"
 let res f = function Val v -> f v | Trap -> "!trap" | Unsafe -> "!unsafe"
+let lres f = function LVal v -> f v | LErr -> "!error"
 
 (* ---- the port's StrPatt around the extracted matcher ---- *)
 exception PTrap
@@ -203,18 +204,19 @@ let () =
         try
           (match op with
            | "len" -> dec_of_z (slen (s 0))
-           | "sub" | "subview" -> hex (nl_sub (s 0) (n 1) (n 2))
-           | "sub1" -> hex (nl_sub (s 0) (n 1) (z_of_int (-1)))
-           | "byte" -> res dec_of_z (nl_byte (s 0) (n 1))
-           | "lt" -> b2s (nl_strlt (s 0) (s 1))
-           | "le" -> b2s (nl_strle (s 0) (s 1))
+           | "sub" -> hex (nl_sub (s 0) (n 1) (n 2)) ^ " || " ^ hex (lua_sub (s 0) (n 1) (n 2))
+           | "subview" -> hex (nl_sub (s 0) (n 1) (n 2))
+           | "sub1" -> hex (nl_sub (s 0) (n 1) (z_of_int (-1))) ^ " || " ^ hex (lua_sub (s 0) (n 1) (z_of_int (-1)))
+           | "byte" -> res dec_of_z (nl_byte (s 0) (n 1)) ^ " || " ^ (match lua_byte (s 0) (n 1) with Some v -> dec_of_z v | None -> "nil")
+           | "lt" -> b2s (nl_strlt (s 0) (s 1)) ^ " || " ^ (match lua_strlt (s 0) (s 1) with Some b -> b2s b | None -> "!fuel")
+           | "le" -> b2s (nl_strle (s 0) (s 1)) ^ " || " ^ (match lua_strle (s 0) (s 1) with Some b -> b2s b | None -> "!fuel")
            | "eq" -> b2s (nl_streq (s 0) (s 1))
-           | "rep" -> res hex (nl_rep (s 0) (n 1))
-           | "repsep" -> res hex (nl_rep_sep (s 0) (n 1) (s 2))
+           | "rep" -> res hex (nl_rep (s 0) (n 1)) ^ " || " ^ lres hex (lua_rep (s 0) (n 1) [])
+           | "repsep" -> res hex (nl_rep_sep (s 0) (n 1) (s 2)) ^ " || " ^ lres hex (lua_rep (s 0) (n 1) (s 2))
            | "reverse" -> hex (nl_reverse (s 0))
-           | "upper" -> hex (nl_upper (s 0))
-           | "lower" -> hex (nl_lower (s 0))
-           | "utf8char" -> res hex (nl_utf8char (n 0))
+           | "upper" -> hex (nl_upper (s 0)) ^ " || " ^ hex (lua_upper (s 0))
+           | "lower" -> hex (nl_lower (s 0)) ^ " || " ^ hex (lua_lower (s 0))
+           | "utf8char" -> res hex (nl_utf8char (n 0)) ^ " || " ^ lres hex (lua_utf8char (n 0))
            | "fmt0" | "fmti" | "fmtii" | "fmts" | "fmtis" | "fmtsi" ->
              (* arguments: integers in decimal, strings as x-hex; float conversions are not modelled *)
              let cfloat _ _ = raise Decline in
@@ -222,15 +224,18 @@ let () =
              let nlv = res hex (nl_format cfloat (s 0) fargs) in
              let luav = (match lua_format cfloat (s 0) fargs with LVal v -> hex v | LErr -> "!error") in
              nlv ^ " || " ^ luav
-           | "packsize" -> res dec_of_z (nl_packsize (s 0))
-           | "packsize_luaspec" -> (match lua_packsize (s 0) with LVal v -> dec_of_z v | LErr -> "!error")
+           | "packsize" ->
+             (* the reference reads a C string: a format with a NUL byte is outside the transcription *)
+             let spec = if List.exists (fun c -> int_of_z c = 0) (s 0) then "?" else lres dec_of_z (lua_packsize (s 0)) in
+             res dec_of_z (nl_packsize (s 0)) ^ " || " ^ spec
            | "utf8len" ->
+             let show = function LenOk k -> dec_of_z k | LenFail p -> "fail " ^ dec_of_z p | LenFuel -> "!fuel" in
              (match nl_utf8len (s 0) (n 1) (n 2) (int_of_z (n 3) = 0) with
-              | Val (LenOk k) -> dec_of_z k
-              | Val (LenFail p) -> "fail " ^ dec_of_z p
-              | Val LenFuel -> "!fuel"
+              | Val r -> show r
               | Trap -> "!trap" | Unsafe -> "!unsafe")
+             ^ " || " ^ lres show (lua_utf8len (s 0) (n 1) (n 2) (int_of_z (n 3) = 0))
            | "utf8offset" -> res dec_of_z (nl_utf8offset (s 0) (n 1) (n 2))
+                             ^ " || " ^ lres (function Some v -> dec_of_z v | None -> "nil") (lua_utf8offset (s 0) (n 1) (n 2))
            | "utf8offset2" -> res dec_of_z (nl_utf8offset (s 0) (n 1) (offset_default (s 0) (n 1)))
            | "utf8codes" ->
              let src = s 0 in
@@ -247,6 +252,7 @@ let () =
                    loop p (k + 1) false in
              loop Z0 0 true
            | "utf8codepoint" -> res dec_of_z (nl_utf8codepoint (s 0) (n 1) (int_of_z (n 2) = 0))
+                                ^ " || " ^ lres dec_of_z (lua_utf8codepoint (s 0) (n 1) (int_of_z (n 2) = 0))
            | "pack1" | "pack2" | "packs" ->
              (match parse_opts (string_of_bytes (s 0)) with
               | None -> "?"
@@ -277,8 +283,8 @@ let () =
              let quants = List.length (List.filter (fun c -> let c = int_of_z c in c = 63 || c = 42 || c = 43 || c = 45) (s 1)) in
              if quants > 10 || List.length (s 1) > 64 || List.length (s 0) > 64 then "?"
              else (try pattern_op op s n with PTrap -> "!trap" | PUnsafe -> "!unsafe" | PFuel -> "!fuel")
-           | "abs" -> dec_of_z (nl_abs (n 0))
-           | "fmod" -> res dec_of_z (nl_fmod (n 0) (n 1))
+           | "abs" -> dec_of_z (nl_abs (n 0)) ^ " || " ^ dec_of_z (lua_abs (n 0))
+           | "fmod" -> res dec_of_z (nl_fmod (n 0) (n 1)) ^ " || " ^ lres dec_of_z (lua_fmod (n 0) (n 1))
            | "ult" -> b2s (nl_ult (n 0) (n 1))
            | "max2" -> dec_of_z (nl_max2 (n 0) (n 1))
            | "min2" -> dec_of_z (nl_min2 (n 0) (n 1))
